@@ -50,14 +50,14 @@ MANIFEST = {
                  "`fastsignal_set/reset/reset_recheck/wait_is_translated` (the four FastSignal frames of the model are the translated bodies), `queue_ctor_is_ring_init`, `queue_ctor_capacity_is_ceilPow2` (the constructor's bit smearing = ceilPow2 for every size 1..2^32), "
                  "`pool_ctor_is_mkPool`, `lazy_pool_is_default_ctor`, `run_decision_is_translated` (the branch the model takes after the two counter reads of ThreadPool::run is the decision tree the translator obtains from the current source by symbolic execution — counter arithmetic with usize/ssize wrap-around, every condition, nested ifs or early returns alike — for all counters below 2^62; the effect statements are opaque), `run_clock_cond_is_translated`, `run_clock_frames_do_what_the_tree_says`, `run_counters_are_translated`, "
                  "`worker_loop_is_translated` (every decision / access frame of ThreadContext::proc is the translated micro-step with the same number; the model's call-site frames are expanded: `worker_call_sites`), `run_push_loop_is_translated` (push loop with back-pressure + counter accesses of ThreadPool::run; a helper the loop is moved into is inlined), "
-                 "`signal_set_is_translated` / `signal_reset_is_translated` / `signal_wait_is_translated` (Signal::set/reset/wait() of Signal.cpp, pthread branch, on the frames sSet*/sRst*/sWait*), `failed_pop_is_pure` and `fastsignal_set_when_already_set_is_a_no_op` (re-polling an empty queue any number of times / loading _state before the test-and-set change nothing), "
+                 "`start_proc_is_translated` (Future<void>::startProc: lazy pool under the spin lock = frames cRdTp/cSpin/cRdTp2/cSwapTp/cUnlockTp, join() call site cJoin, cArm = the two arming stores in either order + run), `signal_set_is_translated` / `signal_reset_is_translated` / `signal_wait_is_translated` (Signal::set/reset/wait() of Signal.cpp, pthread branch, on the frames sSet*/sRst*/sWait*), `failed_pop_is_pure` and `fastsignal_set_when_already_set_is_a_no_op` (re-polling an empty queue any number of times / loading _state before the test-and-set change nothing), "
                  "`join_is_translated`, `join_clear_is_translated`, `abort_is_translated`, `flags_are_translated`, `destructor_is_translated`, `set_is_translated`, `result_conversion_is_translated`, `proc_order_is_translated`, `fut_ctor_is_default`, "
                  "`flags_after_join_translated` (the last sentence of C10 with the translated isFinished()/isAborted()), `size_body_never_underflows` (LockFreeQueue::size against arbitrary concurrent steps).  "
                  "PropsRestart.lean: `abortReq_is_abort_since_last_start` (the ghost flag equals a scan of the run's event history: last arming / abort() / destruction of the future), `flags_after_join_across_restarts`, "
                  "`aborted_after_join_means_abort_since_last_start` (isAborted() after join implies an abort() on this object after its LAST start, for any sequence of starts / aborts / joins / destroys / re-starts), `restart_history_witness`."),
-        "note": ("Translated and proved equal to the model step (round 7, regenerated on every run): LockFreeQueue push/pop/size/constructor, FastSignal set/reset/wait, Signal::set/reset/wait(), ThreadPool constructor, the worker loop ThreadContext::proc, the push loop and counter accesses of ThreadPool::run, the worker-count decision of ThreadPool::run (arithmetic with wrap-around + all conditions, as a decision tree), Future<void> constructor/destructor/join/abort/isAborting/isFinished/isAborted/set, Future<A> conversion/destructor (its other members are checked to be plain forwards), the action order of the two proc templates.  "
+        "note": ("Translated and proved equal to the model step (round 7, regenerated on every run): LockFreeQueue push/pop/size/constructor, FastSignal set/reset/wait, Signal::set/reset/wait(), Future<void>::startProc, ThreadPool constructor, the worker loop ThreadContext::proc, the push loop and counter accesses of ThreadPool::run, the worker-count decision of ThreadPool::run (arithmetic with wrap-around + all conditions, as a decision tree), Future<void> constructor/destructor/join/abort/isAborting/isFinished/isAborted/set, Future<A> conversion/destructor (its other members are checked to be plain forwards), the action order of the two proc templates.  "
                  "The translator's own assumptions: ring tickets as Nat without wrap-around (the counters of run() ARE translated with 64-bit wrap-around), `x & _capacityMask` as `&&&` (= `%` for the power-of-two capacity, proved), node->head = (usize)-1 as `none`, a destructor call of the trivially destructible Job is no memory access, Atomic::* with their documented meaning, the ghost logs are not produced by the code.  "
-                 "HAND-translated and only tied by the step-by-step replay: the effect statements of ThreadPool::run after its decision (spawn / retire branches under the mutex, purge of the context list, Thread::start and its failure branch), ~ThreadPool, startProc (lazy pool under the spin lock), of Signal.cpp the constructor / destructor / wait(timeout); "
+                 "HAND-translated and only tied by the step-by-step replay: the effect statements of ThreadPool::run after its decision (spawn / retire branches under the mutex, purge of the context list, Thread::start and its failure branch), ~ThreadPool, of Signal.cpp the constructor / destructor / wait(timeout); "
                  "sequentially consistent atomics; the "
                  "simulated POSIX semantics (mutex, condition variable with spurious wake-ups, create/join, virtual clock) is an assumption shared by scheduler and model; scheduling "
                  "points of the implementation run are atomic operations and pthread calls only (plain volatile reads are not separately interleaved in the run, they are in the "
@@ -961,7 +961,7 @@ def arity_stream(ctx, exe, stats):
 
 OPEN_STATEMENTS = ["PropsSpawnFail.lean: safety theorems with refused thread creations are proved for the ORIGINAL failure branch (XReach ⊆ Reach); the REPAIRED branch (fixes/future/0006, XReachFix) is modelled, replayed and kernel-evaluated on three runs, its safety is not transferred (runs leave Reach while _threadCount is transiently too high; needs the handler pcs in Frame)",
                    "PropsSpawnFail.lean: worker steps after the tail rule of the original branch fired (the rule itself is proved safety-neutral); positive liveness (join_eventually under 'a worker exists or a creation eventually succeeds'): only finite progress is proved",
-                   "PropsGen.lean: NOT translated (hand translation, tied by the replay only): the spawn / retire effect statements of ThreadPool::run, ~ThreadPool, startProc; the translated bodies are proved equal to the model steps, the C++ subset semantics of the translator is an assumption",
+                   "PropsGen.lean: NOT translated (hand translation, tied by the replay only): the spawn / retire effect statements of ThreadPool::run, ~ThreadPool; the translated bodies are proved equal to the model steps, the C++ subset semantics of the translator is an assumption",
                    "PropsCall.lean: the pool model carries the Args2 instance of the generic capture record (CallModel.lean, all arities); the header -> CallModel translation is tied by the harness request `arity`"]      # join_eventually is proved outright (Props.lean) since round 2 / fix 0005
 
 
